@@ -398,11 +398,34 @@ class Path:
             s = z3.Solver()
             s.set('timeout', 1000)
             for p in self.pc:
-                s.add(p)
+                if not self._has_quantifier(p):  # (weaker hypotheses are sound for entailment; quantifiers make these inline queries run into the time limit)
+                    s.add(p)
             s.add(z3.Not(c))
             r = s.check() == z3.unsat
         cache[key] = r
         return r
+
+    def _has_quantifier(self, f):
+        cache = self.explorer.__dict__.setdefault('quant_cache', {})
+        key = f.get_id()
+        hit = cache.get(key)
+        if hit is not None:
+            return hit[0]
+        found = False
+        seen = set()
+        stack = [f]
+        while stack and not found:
+            t = stack.pop()
+            i = t.get_id()
+            if i in seen:
+                continue
+            seen.add(i)
+            if z3.is_quantifier(t):
+                found = True
+            elif z3.is_app(t):
+                stack.extend(t.children())
+        cache[key] = (found, f)
+        return found
 
     def force(self, lv):
         """resolve a lazily chosen OneOf alternative (a decision)"""
@@ -412,8 +435,17 @@ class Path:
         o = lv.options[i]
         from . import contracts as _C
 
+        first = self.next_oid
         v = self.cfg.fresh(self, o, lv.hint) if isinstance(o, _C.T) else self.import_native(o)
         self.lazy[lv.lid] = v
+        # objects built for a lazily chosen pre-state alternative belong to the pre-state: they exist in every
+        # snapshot taken so far (old views, replay of the entry state)
+        for oid in range(first, self.next_oid):
+            for snap in self.snapshots.values():
+                snap.setdefault(oid, self.heap[oid].clone())
+            for st in (getattr(self, 'prestate', None), getattr(self, 'headstate', None)):
+                if st is not None:
+                    st['heap'].setdefault(oid, self.heap[oid].clone())
         return v
 
     def decide(self, conds, why=''):
@@ -980,6 +1012,8 @@ class Path:
             if step:
                 step()
             spec.check_inv(self, 'inv-preserved')
+            if hasattr(spec, 'check_loop_frame'):
+                spec.check_loop_frame(self)
             if v0 is not None:
                 v1 = spec.variant(self)
                 self.oblige(spec.name('variant-decreases'), 'variant', self.compare_op(ast.Lt(), v1, v0))
